@@ -238,7 +238,7 @@ def _shard(shard, nshards, payload):
 
 
 def run(tier):
-    depth = 4 if tier == "quick" else 6
+    depth = 4 if tier == "quick" else 5
     st = common.merge_all(common.run_sharded(_shard, {'depth': depth}))
     if not st.samples:
         st.sample({'class': 'autolength', 'code': 'generated', 'init': repr(INITS[2]), 'history': repr([OPS[0], OPS[6], OPS[7]])})
